@@ -927,6 +927,11 @@ REFINED = [
     "Context::convert_base, same base (code as of fix 0c0f651): repr_round to the target precision like every other "
     "branch (convert_base_same_base), so convert_base_result_digits (<= p+1 digits) and the contract hold WITHOUT excluding NewB = B; "
     "driven by gen_same_base (bases 2, 3, 10, 16)",
+    "the scale of a literal (round 7): parseIsize, the model of `str::parse::<isize>()` that both the parser model and the grammar parseFloatSpec use, "
+    "accepts EXACTLY the texts `[+|-] d+` (ASCII decimal digits, leading zeros allowed) whose value lies in -2^(bits-1) .. 2^(bits-1)-1, answers that value, "
+    "and answers NoDigits for the empty text / InvalidDigit for everything else — stated over the existential grammar IsizeText, which names one value "
+    "per text (parse_isize_spec); hence the scale split of from_str_native (last marker, text behind it) succeeds iff that text is an IsizeText of 64 bits, "
+    "with scale = its value and body = the text before the marker, scale 0 without a marker (scale_split_spec)",
     "infinities: the shortcut of every formatter prints inf / -inf and ignores every formatter option (fmtInfinite; driven against the real "
     "code through all traits, FBig and Repr, op f.fmtinf)",
     "Binary / Octal / LowerHex / UpperHex of FBig (base 2: `b` and the hexadecimal form 0xh.hhp±e; base 8: `o`; base 16: `h`) and Debug of "
@@ -934,9 +939,10 @@ REFINED = [
     "debugRepr) and compared with the real code on every run, all fill/alignment/sign/zero flags",
 ]
 FRONTIER = [
-    "str::parse::<isize>() of the scale (parseIsize) is shared by model and grammar: its own behaviour (sign, ASCII digits, 64-bit range) "
-    "is compared with the real code at run time only (E1/E2 classes of round 5: every byte in the scale positions, values at and beyond the isize "
-    "limits); the theorems hold for 64-bit isize",
+    "str::parse::<isize>() of the scale (parseIsize) is shared by model and grammar; since round 7 the definition is proved equal to the documented "
+    "grammar `[+|-] d+`, value inside the isize range, NoDigits / InvalidDigit otherwise (parse_isize_spec, scale_split_spec). What stays run-time only: "
+    "that core's `isize::from_str` (not dashu code, nothing to regenerate) behaves like that grammar — compared with the real code on every run "
+    "(E1/E2 classes of round 5: every byte in the scale positions, values at and beyond the isize limits); the float theorems hold for 64-bit isize",
     "exponent arithmetic: the model's exponent is an unbounded integer, the code's an isize. The theorems are about the unbounded model; the driver "
     "requires an error for a literal whose exact value needs an exponent outside isize and the exact text for a shown exponent outside isize; the real "
     "code agrees on every driven case since fixes 5997fe0 (parser: i128 exponent, InvalidDigit when the normalized exponent does not fit) and a7e84fd "
@@ -971,7 +977,7 @@ THEOREMS = ["Dashu.Props.C08." + t for t in [
     "round_int_meets_mode_spec", "mode_spec_unique", "display_spec_rounds_like_model", "with_precision_digits",
     "scale_markers_regenerated", "fmt_trait_table_regenerated", "convert_base_same_base",
     "padded_scientific_print_parse", "with_base_contract", "display_text_is_spec", "display_text_is_spec_normalised",
-    "ilog_exact_regenerated", "with_base_precision_regenerated"]]
+    "ilog_exact_regenerated", "with_base_precision_regenerated", "parse_isize_spec", "scale_split_spec"]]
 EXPLANATION = ("Partial. Proved for all bases, modes, precisions and operands: the three exact-evaluation branches of base conversion "
                "round the exact value (contract of C03: exact iff representable, else < 1 ulp on the mode's side, truthful flag); "
                "the documented with_base precision; exactness of the f32/f64 import; the literal parser equals the documented grammar on every byte "
@@ -997,7 +1003,8 @@ LEVEL_TEXT = ("PARTIAL. Machine-checked Lean 4 theorems, for every base >= 2, mo
               "contract (exact whenever representable, otherwise < 1 ulp on the side the mode requires, truthful Exact/Inexact flag); "
               "the documented precision of with_base; exact import of f32/f64; the literal parser equals the documented grammar on every byte "
               "string in every base 2..36 (sign, underscores, markers e b o h p @, hexadecimal form of base 2, all error cases), an accepted "
-              "string denotes exactly the number its digits spell and the precision is the number of written digits; Display (no precision) "
+              "string denotes exactly the number its digits spell and the precision is the number of written digits; the scale behind a marker is accepted exactly when it is "
+              "an optional sign and decimal digits with a value inside the isize range, and is that value; Display (no precision) "
               "followed by parsing returns an equal number; Display with precision p prints exactly p fractional digits of the value rounded "
               "as the mode specifies, and parsing that text returns exactly the rounded value; with_precision meets the rounding contract; "
               "base conversion through every branch except ln/exp — including the division branch for small negative exponents — meets it "
